@@ -61,6 +61,14 @@ def r18_1(ctx: Ctx):
     if not step_nodes:
         raise AnalysisError("DemeTree.run_metaepoch no longer steps demes")
     opt_defs = {name for name, ds in local_defs(f).items() if ds and all(_mentions_option(d) for d in ds if not isinstance(d, ast.AugAssign))}
+    # the demes to step are produced by a helper of the tree (a generator, a pre-filtered list built elsewhere): the skip
+    # condition lives there, in a form this rule does not follow
+    for n in step_nodes:
+        L = cfg.loop_of(n)
+        it = L["stmt"].iter if L is not None and isinstance(L["stmt"], ast.For) else None
+        it = _core_iter(it) if it is not None else None
+        if isinstance(it, ast.Call) and isinstance(it.func, ast.Attribute) and isinstance(it.func.value, ast.Name) and it.func.value.id == f.self_name():
+            return [ctx.ob("R18.1", f, L["stmt"], status=INCONCLUSIVE, detail=f"the demes to step are chosen by `{norm(it)[:60]}`, which this rule does not follow", construct="opaque-source")]
     viol = []
     unknown = []
 
@@ -246,10 +254,11 @@ def r18_3(ctx: Ctx):
         def edge_fn(n, lab, s):
             if n.kind == "cond" and lab in (True, False) and isinstance(n.ast, ast.Compare) and len(n.ast.ops) == 1 and isinstance(n.ast.ops[0], (ast.In, ast.NotIn)):
                 l, r = n.ast.left, n.ast.comparators[0]
-                rt = norm(r)
-                if norm(l) == norm(recv) and rt in (seeds_name, f"{seeds_name}.keys()"):
+                if norm(l) == norm(recv) and _is_seed_keys(r, seeds_name, defs):
                     member = lab if isinstance(n.ast.ops[0], ast.In) else (not lab)
                     return member
+                if norm(l) == norm(recv) or seeds_name in {x.id for x in ast.walk(r) if isinstance(x, ast.Name)}:
+                    return "?"  # a membership test the analyser cannot relate to the keys of the seeds mapping
             return s
 
         typestate(cfg, ["U"], node_fn, edge_fn)
@@ -262,6 +271,8 @@ def r18_3(ctx: Ctx):
                 obs.append(ctx.ob("R18.3", f, st, status=VIOLATION, detail=f"`{norm(st)}` sets the flag exactly when the deme IS a key of `{seeds_name}`: demes that sprouted fall asleep and idle ones stay awake"))
             else:
                 obs.append(ctx.ob("R18.3", f, st, status=INCONCLUSIVE, detail="flag stored from a non-constant the analyser cannot relate to membership in the seeds"))
+        elif "?" in facts:
+            obs.append(ctx.ob("R18.3", f, st, status=INCONCLUSIVE, detail=f"`_hibernating = {val}` is guarded by a membership test the analyser cannot relate to the keys of `{seeds_name}`"))
         elif facts == {want}:
             obs.append(ctx.ob("R18.3", f, st, detail=f"`_hibernating = {val}` exactly when the deme is {'not ' if val else ''}among this round's seeds"))
         else:
@@ -348,12 +359,30 @@ def _nonconst_store_verdict(value, defs, recv, seeds_name, facts) -> str:
 
 
 
+def _is_seed_keys(r, seeds_name, defs, depth=0):
+    """r denotes the key set of the seeds mapping: the mapping itself, .keys(), or set / frozenset / list / tuple of those,
+    possibly bound once to a local."""
+    if depth > 4:
+        return False
+    if isinstance(r, ast.Name) and r.id != seeds_name and r.id in defs and len(defs[r.id]) == 1:
+        return _is_seed_keys(defs[r.id][0], seeds_name, defs, depth + 1)
+    if norm(r) in (seeds_name, f"{seeds_name}.keys()"):
+        return True
+    if isinstance(r, ast.Call) and isinstance(r.func, ast.Name) and r.func.id in ("set", "frozenset", "list", "tuple") and len(r.args) == 1 and not r.keywords:
+        return _is_seed_keys(r.args[0], seeds_name, defs, depth + 1)
+    return False
+
+
 def _core_iter(e):
     while True:
         if isinstance(e, ast.Call) and isinstance(e.func, ast.Name) and e.func.id in ("reversed", "list", "tuple", "sorted", "iter") and e.args:
             e = e.args[0]
         elif isinstance(e, ast.Subscript) and isinstance(e.slice, ast.Slice) and e.slice.lower is None and e.slice.upper is None:
             e = e.value  # x[::-1] / x[:] : the same elements
+        elif isinstance(e, (ast.ListComp, ast.GeneratorExp)) and len(e.generators) == 1 and not e.generators[0].ifs and isinstance(e.elt, ast.Name) and e.elt.id in {x.id for x in ast.walk(e.generators[0].target) if isinstance(x, ast.Name)}:
+            e = e.generators[0].iter  # [d for _, d in X]: one element per element of X (a projection of the same collection)
+        elif isinstance(e, (ast.ListComp, ast.GeneratorExp)) and len(e.generators) == 1 and not e.generators[0].ifs and isinstance(e.elt, ast.Tuple) and isinstance(e.generators[0].target, ast.Tuple) and [norm(x) for x in e.elt.elts] == [norm(x) for x in e.generators[0].target.elts]:
+            e = e.generators[0].iter
         else:
             return e
 
